@@ -34,6 +34,9 @@ func init() {
 			{ID: "C10.12", Desc: "string indexing at i+k is guarded by a length test that covers offset k", Run: ruleC10_12, MinSites: 1},
 			{ID: "C10.11", Desc: "the entry reader never returns (nil entry, nil error); the entry handed to the validation handler is never nil", Run: ruleC10_11, MinSites: 2},
 			{ID: "C10.10", Desc: "no mutex is left locked on any return (a failing store operation must not wedge the next RoundTrip)", Run: func(c *Ctx) { ruleC14_1(c); renameRule(c, "C14.1", "C10.10") }, MinSites: 4},
+			{ID: "C10.14", Desc: "an entry found under another key than the one recorded in it is unreadable", Run: func(c *Ctx) { ruleEntryBelongsToKey(c, "C10.14") }, MinSites: 1},
+			{ID: "C10.15", Desc: "a stored body that ends early makes the entry unreadable (read to its end while parsing)", Run: func(c *Ctx) { ruleStoredBodyComplete(c, "C10.15") }, MinSites: 1},
+			{ID: "C10.16", Desc: "a nil header map of the upstream response is replaced before the cache writes fields into it", Run: func(c *Ctx) { ruleUpstreamHeaderRepaired(c, "C10.16") }, MinSites: 1},
 		},
 	})
 }
